@@ -6,6 +6,7 @@ import (
 	"fmt"
 	"sort"
 	"strings"
+	"sync"
 	"time"
 
 	"github.com/anishathalye/porcupine"
@@ -62,6 +63,16 @@ type RoundRes struct {
 	Profile    string            `json:"profile"`
 }
 
+// ageProgram rewrites every item with the value it already has.
+func ageProgram(init map[string]string) txn.Program {
+	var p txn.Program
+	for k, v := range init {
+		p.Ops = append(p.Ops, txn.Op{Store: "s", Kind: "update", K: k, V: v})
+	}
+	sort.Slice(p.Ops, func(a, b int) bool { return p.Ops[a].K < p.Ops[b].K })
+	return p
+}
+
 func regKey(i int) string { return fmt.Sprintf("r%02d", i*7) } // spread so registers live in several nodes
 func setKey(i int) string { return fmt.Sprintf("s%02d", i) }
 
@@ -89,6 +100,14 @@ func round(i int, seed int64, extra []string) any {
 	if err := txn.Commit(txn.Public{DB: db}, seedProg, time.Minute); err != nil {
 		res.Harness = "seed: " + err.Error()
 		return res
+	}
+	if i%2 == 1 {
+		// aged store: every item has been rewritten (with the value it already has) by a second committed
+		// transaction, so separately stored values really live in their own blobs and are loaded lazily
+		if err := txn.Commit(txn.Public{DB: db}, ageProgram(init), time.Minute); err != nil {
+			res.Harness = "ageing: " + err.Error()
+			return res
+		}
 	}
 	res.Init = init
 	G := 3 + rnd.Intn(5)
@@ -546,9 +565,19 @@ func Run(r *report.Run) int {
 	rounds := r.Pick(200, 5000)
 	lines, died := par.Run(r, "c02-worker", 8, rounds, 1700, nil)
 	conc.ReportDeaths(r, "C02", died)
-	crounds := r.Pick(48, 800)
-	clines, cdied := par.Run(r, "c02c-worker", 6, crounds, 1700, nil)
+	// the three process-based halves run side by side (the timing-driven in-process half ran alone above)
+	crounds, drounds, lrounds := r.Pick(48, 800), r.Pick(96, 2000), r.Pick(160, 4000)
+	var clines, dlines, llines []par.Line
+	var cdied, ddied, ldied []string
+	var hw sync.WaitGroup
+	hw.Add(3)
+	go func() { defer hw.Done(); clines, cdied = par.Run(r, "c02c-worker", 5, crounds, 1700, nil) }()
+	go func() { defer hw.Done(); dlines, ddied = par.Run(r, "c02c-worker", 5, drounds, 1700, nil, "directed") }()
+	go func() { defer hw.Done(); llines, ldied = par.Run(r, "c02c-worker", 4, lrounds, 1700, nil, "directed-local") }()
+	hw.Wait()
 	conc.ReportDeaths(r, "C02", cdied)
+	conc.ReportDeaths(r, "C02", ddied)
+	conc.ReportDeaths(r, "C02", ldied)
 	type tagged struct {
 		par.Line
 		mode string
@@ -560,15 +589,9 @@ func Run(r *report.Run) int {
 	for _, l := range clines {
 		all = append(all, tagged{l, "clustered"})
 	}
-	drounds := r.Pick(96, 2000)
-	dlines, ddied := par.Run(r, "c02c-worker", 6, drounds, 1700, nil, "directed")
-	conc.ReportDeaths(r, "C02", ddied)
 	for _, l := range dlines {
 		all = append(all, tagged{l, "clustered-directed"})
 	}
-	lrounds := r.Pick(160, 4000)
-	llines, ldied := par.Run(r, "c02c-worker", 8, lrounds, 1700, nil, "directed-local")
-	conc.ReportDeaths(r, "C02", ldied)
 	for _, l := range llines {
 		all = append(all, tagged{l, "inprocess-directed"})
 	}
